@@ -30,6 +30,10 @@ def plan(tier):
                 pl.append((PG.map_prog(c, l, 2, None, shape=shape), 0, PT))
     if tier == "thorough":
         pl += [(PG.cancel_prog(1), 2, PT), (PG.cancel_two_threads(1), 2, dict(kinds=("P",)))]
+    # source-line granularity (one preemption at any line of loky run by a parent thread)
+    pl += simcheck.line_plan([PG.cancel_two_threads(1), PG.two_submitters(1, None)])
+    if tier == "thorough":
+        pl += simcheck.line_plan([PG.cancel_prog(1), PG.cancel_run(3, 2), PG.resize_with_map(1, 2, 0.05), PG.bursts(2, 0.05), PG.map_prog(2, (3, 4), 2, 0.05), PG.submit_cancel_shutdown(1, True)])
     return pl
 
 
